@@ -107,6 +107,41 @@ theorem escSplit_row : ∀ (cs : List (List Char)), cs ≠ [] → (∀ c ∈ cs.
       simp only [joinRow, h1, hflag, escSplitGo, beq_self_eq_true, Bool.not_false, if_true]
       rw [ih (by simp) (fun x hx => hb x (by simp [List.dropLast]; exact .inr hx))]
 
+/-- cells followed by a delimiter: all of them come back, then the rest of the row is split on its own -/
+theorem escSplit_row_app : ∀ (cs : List (List Char)) (rest : List Char), cs ≠ [] → (∀ c ∈ cs, c.getLast? ≠ some '\\') →
+    escSplitGo (joinRow cs ++ '|' :: rest) false [] = cs ++ escSplitGo rest false [] := by
+  intro cs
+  induction cs with
+  | nil => intro rest h; exact absurd rfl h
+  | cons c tl ih =>
+    intro rest _ hb
+    have hc : c.getLast? ≠ some '\\' := hb c (by simp)
+    have hflag : (c.getLast? == some '\\' && !c.isEmpty || false && c.isEmpty) = false := by
+      have : (c.getLast? == some '\\') = false := by simpa using hc
+      simp [this]
+    cases tl with
+    | nil =>
+      have h1 := pipeEsc_go c ('|' :: rest) [] false
+      simp only [List.nil_append] at h1
+      simp only [joinRow, h1, hflag, escSplitGo, beq_self_eq_true, Bool.not_false, if_true, List.cons_append, List.nil_append]
+    | cons c2 tl' =>
+      have h1 := pipeEsc_go c ('|' :: (joinRow (c2 :: tl') ++ '|' :: rest)) [] false
+      simp only [List.nil_append] at h1
+      simp only [joinRow, List.append_assoc, List.cons_append, h1, hflag, escSplitGo, beq_self_eq_true, Bool.not_false, if_true]
+      rw [ih rest (by simp) (fun x hx => hb x (List.mem_cons_of_mem _ hx))]
+      rfl
+
+/-- **C09.row_cells** — a row written with both enclosing pipes, `|c₁|c₂|…|cₙ|`, own pipes as `\|`, no cell ending in a backslash:
+    `escapedSplit` followed by the two `pop`s yields exactly the cells — empty first / last cells included -/
+theorem row_cells (cs : List (List Char)) (hne : cs ≠ []) (hb : ∀ c ∈ cs, c.getLast? ≠ some '\\') :
+    popEnds (escSplitGo ('|' :: (joinRow cs ++ ['|'])) false []) = cs := by
+  have h := escSplit_row_app cs [] hne hb
+  simp only [escSplitGo] at h
+  simp only [escSplitGo, beq_self_eq_true, Bool.not_false, if_true, h, popEnds]
+  have hl : (cs ++ [([] : List Char)]).getLast? = some [] := by simp
+  rw [hl]
+  simp
+
 /-- the proviso is sharp (known finding D12): the cell `\` followed by the cell `b` comes back as the single cell `|b` -/
 theorem row_backslash_cell : escSplitGo (joinRow [['\\'], ['b']]) false [] = [['|', 'b']] := by decide
 
